@@ -272,9 +272,31 @@ endpats: Final = {
     "'''": r"(?:[^'\\]|\\.|'(?!''))*'''",
     '"""': r'(?:[^"\\]|\\.|"(?!""))*"""',
 }
-# literal part of an f-string up to the next replacement field; like endpats it never runs past the closing quote
-StartLBrace: Final = {quote: pat[: pat.rindex(")*") + 2] + r"?(?=\{(?!\{)){" for quote, pat in endpats.items()}
-EndRBrace = r".*?(?=\}(?!\}))}"
+
+
+@functools.lru_cache
+def fstring_middle_pattern(quote: str, raw: bool) -> str:
+    """What can follow a literal part of an f-string: a replacement field, the closing quote or a stray '}'.
+
+    The literal part is made of ordinary characters, escapes (a backslash never escapes a brace; ``\\N{...}`` is an
+    escape unless the string is raw), doubled braces and, in triple-quoted strings, lone quotes; like endpats it never
+    runs past the closing quote."""
+    q = quote[0]
+    units = [rf"[^{q}\\{{}}]", r"\\[^{}]", r"\\(?=[{}])", r"\{\{", r"\}\}"]
+    if not raw:
+        units.insert(1, rf"\\N\{{[^{{}}{q}]*\}}")
+    if len(quote) == 3:
+        units.append(f"{q}(?!{q}{q})")
+    literal = "(?:" + "|".join(units) + ")*"
+    return choice(LBrace=literal + r"\{(?!\{)", End=literal + quote, BadRBrace=literal + r"\}")
+
+
+@functools.lru_cache
+def fstring_spec_pattern(quote: str) -> str:
+    """Inside a format spec: literal text up to a nested replacement field or the closing brace."""
+    q = quote[0]
+    literal = rf"(?:[^{q}{{}}\n]|{q}(?!{q}{q}))*" if len(quote) == 3 else rf"[^{q}{{}}\n]*"
+    return choice(LBrace=literal + r"\{", RBrace=literal + r"\}")
 
 tabsize = 8
 
@@ -395,6 +417,7 @@ class EndProg:
     contline: str = ""  # str
     start: tuple[int, int] = (0, 0)
     quote: str = ""
+    had_field: bool = False  # a format spec that already holds a nested replacement field
 
     def join(self, state: TokenizerState, end: int) -> None:
         self.text += state.line[state.pos : end]
@@ -480,7 +503,7 @@ def next_psuedo_matches(state: TokenizerState) -> TokenInfo | None:
         quote = match.group("Quote") or '"'
         if "f" in token.lower():
             token_type = Token.FSTRING_START
-            pattern = choice(LBrace=StartLBrace[quote], End=endpats[quote])
+            pattern = fstring_middle_pattern(quote, "r" in token.lower())
             state.add_prog(end, end, pattern=pattern, quote=quote, mode=ModeMiddle(state.parenlev))
         else:
             pattern = endpats[quote]
@@ -505,7 +528,8 @@ def next_psuedo_matches(state: TokenizerState) -> TokenInfo | None:
                 state.pop_mode((state.lnum, end))
             state.parenlev -= 1
         elif token == ":" and state.in_braces() and state.at_parenlev():
-            state.add_prog(start + 1, end, mode=ModeInColon(state.parenlev), pattern=choice(RBrace=EndRBrace))
+            quote = next(p.quote for p in reversed(state.end_progs) if p.quote)
+            state.add_prog(start + 1, end, mode=ModeInColon(state.parenlev), pattern=fstring_spec_pattern(quote))
         token_type = Token.OP
     elif match.lastgroup == "End":  # // continuation
         state.continued = True
@@ -551,11 +575,16 @@ def handle_fstring_progs(state: TokenizerState, endprog: EndProg) -> Iterator[To
             line=state.line,
         )
         state.pop_mode()
+    elif endmatch.lastgroup == "BadRBrace":
+        raise TokenError("f-string: single '}' is not allowed", (state.lnum, end - 1))
     else:  # "{" or "}"
         middle_end = end - 1
-        if (middle_end > state.pos) or (endprog.text):  # has buffer
+        closes_spec = endmatch.lastgroup == "RBrace"
+        # like CPython, a format spec that holds a nested field always ends in a (possibly empty) literal part
+        if (middle_end > state.pos) or (endprog.text) or (closes_spec and endprog.had_field):  # has buffer
             yield state.prog_token(middle_end, Token.FSTRING_MIDDLE)
         if endmatch.lastgroup == "LBrace":
+            endprog.had_field = state.in_colon()
             yield TokenInfo(
                 Token.OP,
                 "{",
